@@ -748,7 +748,12 @@ pub fn run_stages<S: Stages>(st: &'static S, workers: usize, dir: &std::path::Pa
                                         slot.counters[C_CASES].fetch_add(1, Relaxed);
                                         // hangs cluster: spread the rest of the chunk over the workers
                                         let rest = e.saturating_sub(cur + 1);
-                                        if rest > 0 {
+                                        // once the time limit was hit nothing is queued again (the stage is reported as capped)
+                                        let over = capped || time_limit.map(|l| t_all.elapsed() > l).unwrap_or(false);
+                                        if rest > 0 && over {
+                                            capped = true;
+                                        }
+                                        if rest > 0 && !over {
                                             let piece = rest.div_ceil(n as u64).max(1);
                                             let mut p = cur + 1;
                                             while p < e {
